@@ -201,6 +201,7 @@ impl Ctl {
             acc: &mut self.acc,
             nontrivial: false,
             sig_suffix: String::new(),
+            captured: None,
         };
         body(&mut cx);
         let nontrivial = cx.nontrivial;
@@ -224,10 +225,25 @@ pub struct CaseCtx<'a> {
     pub nontrivial: bool,
     /// appended to every violation signature (e.g. the kind of configuration)
     pub sig_suffix: String,
+    /// while `Some`, violations are collected here instead of being reported
+    pub captured: Option<Vec<(String, String)>>,
 }
 
 impl CaseCtx<'_> {
+    /// Run a judgement and return the violations it raises without reporting them (so that the
+    /// caller can decide under which signature they are reported).
+    pub fn capture(&mut self, f: impl FnOnce(&mut Self)) -> Vec<(String, String)> {
+        let outer = self.captured.replace(vec![]);
+        f(self);
+        let got = self.captured.take().unwrap_or_default();
+        self.captured = outer;
+        got
+    }
     pub fn violation(&mut self, sig: impl Into<String>, msg: impl Into<String>) {
+        if let Some(c) = self.captured.as_mut() {
+            c.push((sig.into(), msg.into()));
+            return;
+        }
         self.acc.total_violations += 1;
         let mut sig: String = sig.into();
         if !self.sig_suffix.is_empty() {
